@@ -341,5 +341,48 @@ pub fn c06() -> i32 {
         let out = explore(&scns, &cfg, &judge);
         rep.absorb("outages on the host<->spectator link of every length; death of a player peer at every round (Disconnected statuses must reach the spectator exactly as the host has them)", out, &props, json!({"k": 0, "scenarios": n}));
     }
+    // ---- the host drops a live peer (whose packets are still in flight) while its spectator is
+    // suspended or lagging and replays those frames later
+    {
+        let mut scns = Vec::new();
+        for w in [2usize, 8] {
+            for lat in [1, 3] {
+                for r in (if t { 4..16 } else { 6..12 }) {
+                    for (plen, polls) in [(10, false), (10, true), (0, false)] {
+                        if !t && r % 2 == 1 && plen == 0 {
+                            continue;
+                        }
+                        let mut s = spec_scn("c06-live-peer-dropped", "1+1", w, 0, false, 2, 3, false);
+                        s.latency = lat;
+                        let h = s.peers[1].locals[0];
+                        s.script.push(ScriptItem { round: r, node: 0, action: Action::Disconnect { handle: h } });
+                        if plen > 0 {
+                            s.specs[0].pauses = vec![(r - 2, plen)];
+                            s.specs[0].pause_polls = polls;
+                        } else {
+                            s.specs[0].tick_every = 3;
+                        }
+                        s.name = format!("{} L={lat} disconnect_player({h})@{r} spectator pause={plen} polls={polls}", s.name);
+                        s.horizon = r + 14;
+                        s.probe = 80;
+                        scns.push(s);
+                    }
+                }
+            }
+        }
+        let n = scns.len();
+        let cfg = ExploreCfg { k: Some(0), wall: Duration::from_secs(if t { 600 } else { 30 }), ..Default::default() };
+        let out = explore(&scns, &cfg, &judge);
+        rep.absorb("the host drops a live peer whose packets are still in flight; the spectator is suspended, polling without advancing, or slow, and replays those frames later", out, &props, json!({"k": 0, "scenarios": n}));
+    }
+    // ---- stale and fresh host packets in any order around a host-side drop
+    {
+        let scns = crate::props::drop::spectator_reorder_scenarios("c06-reorder-around-drop");
+        let k = if t { 3 } else { 2 };
+        let n = scns.len();
+        let cfg = ExploreCfg { k: Some(k), wall: Duration::from_secs(if t { 900 } else { 30 }), ..Default::default() };
+        let out = explore(&scns, &cfg, &judge);
+        rep.absorb("host->spectator Input packets delayed/dropped (reordered) around the round in which the host registers a drop", out, &props, json!({"k": k, "configs": n}));
+    }
     rep.finish()
 }
